@@ -313,6 +313,27 @@ def run(tier):
         if n <= 130:
             for cfg in cfgs[:3]:
                 items.append({"n": n, "req": "none", "placement": "main", "kind": "maybe", "cfg": cfg.to_json()})
+    # slot identity across API-call order: a subroutine wrapper queried (its body evaluated on the side, the slot
+    # counter rewound) before the rest of the program's variables exist - every variable still its own cell
+    from .. import c11_server
+    for version in (5, 6, 7, 8, 10):
+        for query in (False, True):
+            for kw in ({}, {"optimize": pt.OptimizeOptions(scratch_slots=True)}, {"optimize": pt.OptimizeOptions(frame_pointers=False)}):
+                rep.add("traces_validated")
+                try:
+                    text = c11_server.query_build(version, query, **kw)
+                    res = interp.run(asm.assemble(text), interp.Ctx(mode="A", group=[interp.default_txn()]), fuel=20000)
+                    ok = res.verdict == "APPROVE"
+                    why = "%s %s" % (res.verdict, res.why)
+                except Exception as e:
+                    ok, why, text = False, "does not compile: %r" % (e,), None
+                if not ok:
+                    rep.violations.append({
+                        "driver": "api-order", "size": 3,
+                        "title": "7 + outer(5) == 5673 (v%d, wrapper queried before build: %s, options %s): %s" % (
+                            version, query, sorted(kw), why),
+                        "case": {"api_order": [version, query, sorted(kw)]}, "teal": text,
+                        "features": {"kind": "api-order", "why": "variables share a cell"}})
     rep.bounds["n_values"] = ns
     rep.bounds["cases"] = len(items)
     for sh in common.pmap_shards(_worker, items, order_seed=rep.seed):
@@ -328,6 +349,19 @@ def run(tier):
 
 def replay(case):
     out = {"counters": {}, "outcomes": {}, "violations": [], "samples": []}
+    if "api_order" in case["case"]:
+        from .. import c11_server
+        version, query, kwn = case["case"]["api_order"]
+        kw = {}
+        if kwn:
+            kw = {"optimize": pt.OptimizeOptions(scratch_slots=True)}
+        bad = False
+        for k in (kw, {"optimize": pt.OptimizeOptions(frame_pointers=False)}, {}):
+            res = interp.run(asm.assemble(c11_server.query_build(version, query, **k)),
+                             interp.Ctx(mode="A", group=[interp.default_txn()]), fuel=20000)
+            print("verdict:", res.verdict, res.why)
+            bad = bad or res.verdict != "APPROVE"
+        return bad
     check_case(case["case"], out)
     for v in out["violations"]:
         print("still violates:", v["title"][:300])
